@@ -21,7 +21,7 @@ def run_batch(scs, name="sim", per_file=25, observe="all"):
 
 def debug(sc, io, ev_idx, name="simdbg"):
     term = simgen.to_coq(sc, io)[0]
-    body = ("Definition sc : scen := %s.\nEval vm_compute in (nth %d (fst (fst (model_run tb_up sc))) []).\nEval vm_compute in (nth %d (sc_expect sc) []).\n"
+    body = ("Definition sc : scen := %s.\nEval vm_compute in (nth %d (fst (fst (model_run tb_up sc))) ([], 0)).\nEval vm_compute in (nth %d (sc_expect sc) ([], 0)).\n"
             % (term, ev_idx, ev_idx))
     o = coq_eval(name, HDR, [body])[0]
     v = parse_evals(o)
